@@ -1008,11 +1008,20 @@ class OffsetMap:
             - delta is the difference between the requested offset and stored offset
               Note: delta can be negative, e.g., when computing slot(a[n-1]) which is `(keccak(slot(a)) - 1) + n`
         """
-        (value, offset) = self._map.get(key >> self._offset_bits, (None, None))
-        if value is None:
-            return (None, None)
-        delta = (key & self._mask) - offset
-        return (value, delta)
+        raw_key = key >> self._offset_bits
+        (value, offset) = self._map.get(raw_key, (None, None))
+        if value is not None:
+            return (value, (key & self._mask) - offset)
+
+        # the stored key may lie just across a block boundary (e.g. hash + 2000 where
+        # the low bits of the hash are close to the end of its block)
+        for neighbor in (raw_key - 1, raw_key + 1):
+            (value, offset) = self._map.get(neighbor, (None, None))
+            if value is not None:
+                stored_key = (neighbor << self._offset_bits) | offset
+                return (value, key - stored_key)
+
+        return (None, None)
 
     def __setitem__(self, key: int, value: Any):
         """Store a value with its offset.
